@@ -446,6 +446,42 @@ def run_case(case):
                     res["prop_fail"] = {"op_index": iop, "assembly_index": nass, "slot": "KCMF"[si],
                                         "impl": X.toarray().astype(complex).real.tolist() if shape_ok else str(X.shape),
                                         "dense": D.real.tolist()}
+            if op.get("mutate"):
+                # the user modifies the matrices RETURNED by Assembly() in place, in every way scipy allows (a read-only
+                # array raising is a legitimate protection): siblings of the same call must not change, and the following
+                # assemblies (compared with the model / dense predicate as usual) must still be the scatter-add
+                mats = (K, C, M, F)
+                before = [X.toarray().copy() for X in mats]
+                for X, how in zip(mats, op["mutate"]):
+                    try:
+                        if how == "data":
+                            X.data[:] = 7
+                        elif how == "elim":
+                            X.data[::2] = 0
+                            X.eliminate_zeros()
+                        elif how == "indices":
+                            X.indices[:] = 0
+                        elif how == "indptr":
+                            X.indptr[:] = 0
+                        elif how == "setdiag":
+                            X.setdiag(5)
+                        elif how == "imul":
+                            X *= 3
+                        elif how == "sort":
+                            X.indices[:] = X.indices[::-1].copy()
+                    except Exception:
+                        pass
+                for si, (X, how) in enumerate(zip(mats, op["mutate"])):
+                    if how is None and res["prop_fail"] is None:
+                        try:
+                            same = np.array_equal(X.toarray(), before[si])
+                        except Exception:
+                            same = False
+                        if not same:
+                            res["prop_fail"] = {"op_index": iop, "assembly_index": nass, "slot": "KCMF"[si], "alias_assembly": True,
+                                                "impl": "slot %s changed although only the OTHER matrices returned by the same Assembly() call were modified in place (%s)" % ("KCMF"[si], op["mutate"]),
+                                                "dense": before[si].real.tolist()}
+                res.setdefault("mutated_at", []).append(iop)
             if res["prop_fail"] is not None and res["prop_fail"]["op_index"] == iop and op.get("layouts"):
                 # diagnosis: the same values as plain C-contiguous ndarrays
                 simu.table = {groups[gid]: tuple(a for (g2, a) in [(gid, slots[si][j][1]) for si in range(4)])
